@@ -366,6 +366,13 @@ class Tokenizer:
     def _parse_wikilink(self):
         """Parse an internal wikilink at the head of the wikicode string."""
         reset = self._head + 1
+        # Not a route, but remembered like one: a wikilink at this position
+        # that looks like an external link, found inside a link title
+        text_link = (reset, contexts.EXT_LINK_TITLE | contexts.WIKILINK_TITLE)
+        if self._context & contexts.EXT_LINK_TITLE and text_link in self._bad_routes:
+            self._head = reset
+            self._emit_text("[[")
+            return
         self._head += 2
         try:
             # If the wikilink looks like an external link, parse it as such:
@@ -385,7 +392,9 @@ class Tokenizer:
         else:
             if self._context & contexts.EXT_LINK_TITLE:
                 # In this exceptional case, an external link that looks like a
-                # wikilink inside of an external link is parsed as text:
+                # wikilink inside of an external link is parsed as text (and
+                # the text is read again: do not parse the link again then):
+                self._bad_routes.add(text_link)
                 self._head = reset
                 self._emit_text("[[")
                 return
